@@ -97,6 +97,12 @@ def run(ctx):
     if ("&&child&&" not in first_if) != ("TICKIT_FOCUSEV_OUT" in fg):
         info["untranslatable"].append("winfocus:_focus_gained partly repaired")
 
+    # ---- repairs of other engines that show in this engine's observations (the rectangles flush hands to the root)
+    fl = norm(body_of(w, "tickit_window_flush") or "")
+    flush_skips = "if(!root_window->is_visible)continue;" in fl
+    flush_clips = "if(!tickit_rect_intersect(rect,rect,&(TickitRect){.top=0,.left=0,.lines=root_window->rect.lines,.cols=root_window->rect.cols}))continue;" in fl
+    if not fl: info["untranslatable"].append("winfocus:tickit_window_flush")
+
     # ---- shape of the unchanged parts the model transcribes (a change here makes the `src_shape` theorem fail)
     walk_ok = "while(win){if(!win->is_visible)break;if(!win->focused_child)break;win=win->focused_child;}" in dr
     cond_parts = [p for p in cond.split("&&")]
@@ -107,12 +113,14 @@ def run(ctx):
     body += "def initCursorLine : Int := %d\ndef initCursorCol : Int := %d\ndef initCursorShape : Int := %d\ndef initCursorVisible : Bool := %s\ndef initCursorBlink : Int := %d\n" % (
         ic["line"], ic["col"], ic["shape"], b(ic["visible"]), ic["blink"])
     body += "/-- the repairs of fixes/C15_*.patch present in the working tree -/\n"
-    body += "def fixes : Tickit.WinFocus.Fixes := { hiddenRoot := %s, chainRestore := %s, focusEvents := %s }\n" % (b(hidden_root), b(chain_restore), b(focus_events))
+    body += "def fixes : Tickit.WinFocus.Fixes := { hiddenRoot := %s, chainRestore := %s, focusEvents := %s, flushSkipsHiddenRoot := %s, flushClipsDamage := %s }\n" % (
+        b(hidden_root), b(chain_restore), b(focus_events), b(flush_skips), b(flush_clips))
     body += "/-- `_do_restore` walks `focused_child` from the root and stops at the first invisible window or missing link -/\n"
     body += "def restoreWalkAsModelled : Bool := %s\n" % b(walk_ok)
     body += "/-- the conjuncts of the condition under which `_do_restore` shows the cursor -/\n"
     body += "def restoreCondition : List String := [" + ", ".join('"%s"' % p for p in cond_parts) + "]\n"
     body += "end Tickit.Gen.WinFocusSrc\n"
     write("WinFocusSrc", body)
-    info["winfocus"] = {"fixes": {"hiddenRoot": hidden_root, "chainRestore": chain_restore, "focusEvents": focus_events},
+    info["winfocus"] = {"fixes": {"hiddenRoot": hidden_root, "chainRestore": chain_restore, "focusEvents": focus_events,
+                                  "flushSkipsHiddenRoot": flush_skips, "flushClipsDamage": flush_clips},
                         "fields": len(fields), "walk": walk_ok}
